@@ -151,7 +151,7 @@ def setTrackedValue (w : World τ) (x : Name) (v : Int) : World τ :=
 /-- `Pipe._throttle_subscribers` (pipe.py) -/
 def throttle (w : World τ) (p : Name) : World τ :=
   let pp := w.pipes.getD p default
-  let desired := pp.subs.foldl (fun acc s => add acc s.2) (zero : τ)
+  let desired : τ := TimeLike.sum (pp.subs.map (·.2))             -- `sum(self._subscriptions.values())`
   match pp.throughput with
   | none =>
     -- infinite throughput: `desired > inf` is false; scale stays / returns to 1
@@ -459,7 +459,8 @@ def execStmt (w : World τ) (a : ActId) (fs : List (Frame τ)) : Stmt τ → Wor
   | .transfer p total throughput =>                                    -- pipe.py Pipe.transfer / UnboundedPipe.transfer
     let pp := w.pipes.getD p default
     let fs := .transferDone p :: fs
-    let w := w.emit a "tstart" [p]
+    let w := w.emit a "tstart" (([(p : Int), if throughput.isSome then 1 else 0] : List Int) ++ tArgs total ++
+      (match throughput with | some t => tArgs t | none => [0, 1]))
     if w.cfg.debug && (lt total (zero : τ) || (match throughput with | some t => !(gt t (zero : τ)) | none => false)) then
       w.raiseNew a fs (.assertion 5)
     else match pp.throughput with
